@@ -384,7 +384,7 @@ def genFields (cfg : GCfg) (ctx : GCtx) (traits : List String) (kind : FieldsKin
           some (if rawNames && i == 0 then "r#type" else names.getD i "z") else none
       pure ({ attrs, vis, name := nm, ty } : Field)
     -- now and then the last field is a bare parameter (it may be declared `?Sized`)
-    let fs ← if ctx.hasT && (← chance 1 5) then
+    let fs ← if ctx.hasT && (← chance 1 3) then
         (match fs.reverse with
          | last :: rest => do
            let ty ← pick [tyT, tyT, tyU, Ty.simple "str", .slice tyT]
@@ -418,7 +418,8 @@ def genGenerics (cfg : GCfg) : Gen (Generics × GCtx) := do
          .ty [] tyT [.trait false [] (Ty.simple "W1")]]),
     (1, [.ty ["'x"] (.ref (some "'x") false tyT) [.trait false [] (Ty.simple "W4")]]),
     (1, [.ty [] tyT [.trait true [] (Ty.simple "Sized")]]),
-    (1, [.ty [] tyT [.trait false [] (Ty.simple "W1"), .trait true [] (.path true [.mk "core" [], .mk "marker" [], .mk "Sized" []])]]),
+    (2, [.ty [] tyT [.trait false [] (Ty.simple "W1"), .trait true [] (.path true [.mk "core" [], .mk "marker" [], .mk "Sized" []])]]),
+    (1, [.ty [] tyT [.trait true [] (Ty.simple "Sized"), .lt "'static", .trait false [] (Ty.simple "W1")]]),
     -- `?Sized` next to other predicates (the unsized-last-field rule of Debug looks through all of them)
     (1, [.ty [] tyT [.trait false [] (Ty.simple "W1")], .ty [] tyT [.trait true [] (Ty.simple "Sized")]]),
     (1, [.ty [] tyT [.trait true [] (Ty.simple "Sized")], .ty [] (Ty.app "Vec" [tyT]) [.trait false [] (Ty.simple "W1")]]),
